@@ -240,6 +240,15 @@ def run(model, col, tier):
             g = n.generators[0]
             if f"Match({at_})" in unparse(e0) and unparse(e1) == unparse(g.target) and unparse(e0).startswith(unparse(g.target) + ".") and not g.ifs:
                 tup_ok = rtext(g.iter, ff_env) == f"self.__functions[{fn_}]"
+        elif isinstance(n, ast.For) and rtext(n.iter, ff_env) == f"self.__functions[{fn_}]" and not any(isinstance(x, (ast.If, ast.Continue, ast.Break)) for s_ in n.body for x in ast.walk(s_)):
+            # explicit loop: for candidate in candidates: scored.append((candidate.Match(argumentTypes), candidate))
+            tg_ = unparse(n.target)
+            for s_ in n.body:
+                for c_ in ast.walk(s_):
+                    if isinstance(c_, ast.Call) and last_attr(c_) == "append" and len(c_.args) == 1 and isinstance(c_.args[0], ast.Tuple) and len(c_.args[0].elts) == 2:
+                        e0, e1 = c_.args[0].elts
+                        if f"Match({at_})" in unparse(e0) and unparse(e1) == tg_ and unparse(e0).startswith(tg_ + "."):
+                            tup_ok = True
     col.check(tup_ok, "R10.2", f"{TYPES}::Scope.FindFunction scores every candidate", "(candidate.Match(argumentTypes), candidate) for every function registered under the name",
               "not every registered candidate of that name is scored against the call's argument types (score first, candidate second)", TYPES, ff)
     # (b) ordering
